@@ -9,6 +9,7 @@ CONSTANTS
   TxSkip = "return"
   AssumeSnapshot = TRUE
   NSet = {1, 2}
+  NSet2 = {1, 2}
   WantSet = {"me", "other", "absent"}
   FReqSet = {0, 2, 99}
   FHashSet = {0, 2, 99}
